@@ -1,1 +1,46 @@
-From Coq Require Import ZArith.
+(* C05 — Path geometry reaches the rasteriser correctly mapped from viewBox to pixels.
+   Statements only; proofs in proofs/GeomR.v.  The renderer's geometry is the single polymorphic
+   definition Render.rdraw / emit; its float32 instance (N32) is compared bit-for-bit with render.go and
+   these theorems are about its instance over the reals (NR inj, where inj is any valuation of float32
+   bit patterns with inj 0 = 0).  The SVG meaning of the operations is spec/SvgPath.v.
+   The float32 rounding error between the two instances is not bounded by a theorem. *)
+From Coq Require Import Reals ZArith Bool List.
+From IVG Require Import SF NumCodec Color Calls Render SvgPath GeomR.
+Import ListNotations.
+Local Open Scope R_scope.
+
+(* one drawing call: the rasteriser receives the SVG meaning of the operation mapped by the affine map,
+   and the pixel pen / sub-path start / smooth-control state keep representing the viewBox-space state *)
+Theorem draw_step : forall (inj : f32 -> R), inj 0%Z = 0 ->
+  forall (s : SR) (st : pstate) (op : Z) (a : list f32),
+  repr s st -> is_path_op op = true -> step_ok inj s st op a.
+Proof. exact GeomR.draw_step. Qed.
+Print Assumptions draw_step.
+
+(* a whole path of any length: Reset, move, the mapped segments of the SVG path, close, one Draw over the rectangle *)
+Theorem geometry : forall (inj : f32 -> R), inj 0%Z = 0 ->
+  forall (s : SR) (x y : f32) (ops : list (Z * list f32)),
+  r_disabled s = false ->
+  forallb (fun o => is_path_op (fst o)) ops = true ->
+  let N := NR inj in
+  let s1 := emit_keep N (emit N s (RReset (r_w s) (r_h s)) 0%Z (r_psx s) (r_psy s))
+                      (RMoveTo (absX N s (inj x)) (absY N s (inj y))) in
+  let s2 := fold_left (fun s o => rdraw N s (fst o) (snd o)) ops s1 in
+  r_log (end_path N s2) =
+  r_log s ++ RReset (r_w s) (r_h s)
+    :: map (seg_call s) (svg_path (inj x, inj y) (map (fun o => (fst o, map inj (snd o))) ops))
+    ++ [RDraw (r_x0 s) (r_y0 s) (r_x0 s + r_w s)%Z (r_y0 s + r_h s)%Z (r_paint s)].
+Proof. exact GeomR.geometry. Qed.
+Print Assumptions geometry.
+
+(* the affine map takes the viewBox corners to (0,0) and (Dx,Dy): independent x and y scale *)
+Theorem amap_corners : forall (inj : f32 -> R) (s : SR) vb pal,
+  inj (vmaxx vb) <> inj (vminx vb) -> inj (vmaxy vb) <> inj (vminy vb) ->
+  let s1 := rreset (NR inj) s vb pal in
+  Amap s1 (inj (vminx vb), inj (vminy vb)) = (0, 0) /\
+  Amap s1 (inj (vmaxx vb), inj (vmaxy vb)) = (IZR (r_w s), IZR (r_h s)).
+Proof. exact GeomR.amap_corners. Qed.
+Print Assumptions amap_corners.
+
+Example ex_ops : forallb (fun o => is_path_op (fst o)) [(opL, [0%Z; 0%Z]); (opt, [0%Z; 0%Z]); (opy, [0%Z; 0%Z])] = true.
+Proof. reflexivity. Qed.
